@@ -245,3 +245,101 @@ class create_memref_struct_contract:
 
     def canary(sh, a, ret):
         check("canary: aligned pointer is always the base pointer", struct_of(ret[1])[(1,)] is a[1] and sh["aligned"])
+
+
+# =====================================================================================
+# MiniMallocate: the lifetimes handed to the (external, assumed) solver cover every real use
+# =====================================================================================
+from xdsl.dialects import func  # noqa: E402
+from xdsl.dialects.builtin import UnrealizedConversionCastOp  # noqa: E402
+from xdsl.ir import Block, Operation, Region, Use  # noqa: E402
+
+
+class UserOp(Operation):
+    """an op that uses some values, possibly nested `depth` region levels below the function body"""
+
+    def __init__(self, values, is_terminator=False):
+        self._init_op(values, [], [])
+        self.is_terminator = is_terminator
+        k = 0
+        for v in values:
+            v.uses.append(Use(self, k))
+            k += 1
+
+
+def nest(op, depth):
+    """wrap `op` into `depth` levels of region-holding ops; returns the top-level op"""
+    top = op
+    for _ in range(depth):
+        w = UserOp([])
+        r = Region([Block([top])])
+        r.parent = w
+        w.regions = [r]
+        top = w
+    return top
+
+
+MM_SHAPES = [dict(late_use=lu, depth=d, via=v) for lu in (False, True) for d in (0, 1, 2, 3) for v in ("cast", "alloc") if lu or (d == 0 and v == "cast")]
+
+
+@contract
+class MiniMallocate_lifetimes_contract:
+    """the lifetime of a buffer handed to the solver ends at the top-level op that contains its LAST use - through its
+    cast and at any nesting depth; with the solver's (assumed) contract two buffers that are live at the same time then
+    get disjoint ranges inside the memory window"""
+    target = "snaxc.transforms.snax_allocate.MiniMallocate.match_and_rewrite"
+    shapes = MM_SHAPES
+    native = False
+    total = True
+    permissive = True
+    compare_ret = False
+
+    def args(sh, sym):
+        mem = SnaxMemory(StringAttr("Test"), sym.int("capacity", 0), sym.int("start", 0))
+        sizes = [sym.int("size0", 0), sym.int("size1", 0)]
+        allocs, casts, body = [], [], []
+        for k in range(2):
+            a = mk_snax_alloc(sizes[k], 0, 1, sym)
+            body.append(a.size.owner)
+            body.append(a)
+            c = UnrealizedConversionCastOp([a.results[0]], [None])
+            a.results[0].uses.append(Use(c, 0))
+            body.append(c)
+            allocs.append(a)
+            casts.append(c)
+            body.append(UserOp([c.results[0]]))  # an early use of the buffer, right after its allocation
+        if sh["late_use"]:
+            # buffer 0 is used again AFTER buffer 1 was allocated: both are live at the same time
+            v = casts[0].results[0] if sh["via"] == "cast" else allocs[0].results[0]
+            body.append(nest(UserOp([v]), sh["depth"]))
+        body.append(UserOp([], True))
+        f = func.FuncOp("f", None, Region([Block(body)]))
+        return [sa.MiniMallocate(lambda name: mem), f, allocs, casts, body, mem, sizes]
+
+    def run(sh, a):
+        rw = PatternRewriter(a[1])
+        a[0].match_and_rewrite(a[1], rw)
+        return rw.log
+
+    def ensures(sh, a, ret):
+        pat, f, allocs, casts, body, mem, sizes = a
+        reps = [e for e in ret if e[0] == "replace_op"]
+        check("each snax.alloc is replaced once", len(reps) == 2 and all(any(e[1] is al for e in reps) for al in allocs))
+        addr = []
+        for al in allocs:
+            e = [e for e in reps if e[1] is al][0]
+            consts = [o for o in e[2] if isinstance(o, arith.ConstantOp) and o.results[0].type == i32 and any(isinstance(u, llvm.IntToPtrOp) and u.input is o.results[0] for u in e[2])]
+            check("one pointer constant per buffer", len(consts) == 1)
+            addr.append(den(consts[0]))
+        for k in range(2):
+            check(f"buffer {k} lies inside the memory window", mem.start <= addr[k] and addr[k] + sizes[k] <= mem.start + mem.capacity)
+        if sh["late_use"]:
+            check("buffers that are live at the same time get disjoint address ranges", addr[0] + sizes[0] <= addr[1] or addr[1] + sizes[1] <= addr[0])
+        ins = [e for e in ret if e[0] == "insert_op"]
+        # the dealloc of a buffer goes after the top-level op holding its last use (never before a later use)
+        last0 = body[len(body) - 2] if sh["late_use"] else body[3]
+        check("a dealloc is inserted after the top-level op that holds the last use of buffer 0 (not earlier)",
+              any(e[2].kind == "after" and e[2].anchor is last0 for e in ins))
+
+    def canary(sh, a, ret):
+        check("canary: both buffers always get the same address", len([e for e in ret if e[0] == "replace_op"]) == 0)
